@@ -49,9 +49,24 @@ hypothetical rule (repair A `copyPerFit`, repaired `nu`), kept because the count
             harmless for A by src_gs_/src_eg_refines_spec_any_moment
        hyp: gs_params_unchanged, eg_params_unchanged (repair A), to_params_unchanged
   D  prediction does not alter fitted state; same seed repeats the answer
-       src: src_predict_pure, src_predict_methods_present (lifted), src_predict_does_not_alter_state (every history);
+       src: src_predict_pure, src_predict_methods_present (lifted, inside each estimator class);
+            ACROSS the helper objects (lifters/lifecycle_helpers.py): src_helper_calls_followed (every method ThresholdOptimizer
+            calls on `interpolated_thresholder_` and the adversarial estimators call on `backendEngine_` is found in
+            InterpolatedThresholder / BackendEngine + PytorchEngine + TensorflowEngine), src_helper_predict_pure (that closure
+            writes no attribute of the helper object or of the estimator behind `self.base`, in place or through aliases, and
+            calls no mutating method), src_helper_mode_flag_scratch (the torch train/eval mode flag, which `evaluate` DOES write,
+            is selected before every forward pass in evaluate and in train_step, so it is scratch state — decision documented
+            in Model/LifecycleSrc.lean), src_predict_pure_flags (`predictPureSrc c` for all 7 classes);
+            the `predict` step of EVERY `…src` machine runs through that flag (`guardPredict`, src_*_guard), so
+            src_predict_does_not_alter_state (every history) and every src_*_refines_spec / src_*_history_free DEPEND on the lifted
+            lists (guard_off_breaks_spec: with the flag off they are false).  F5g (known finding, visible):
+            src_cr_transform_resets_sklearn_attrs — CorrelationRemover.transform lets sklearn's validate_data(reset=True) rewrite
+            n_features_in_ / feature_names_in_.
             *_predict_pure (every state, every rule).  The model's predict result does not depend on the seed at all,
             so "same seed repeats" is the second conjunct of *_predict_pure; the numbers are compared by the harness.
+       STILL MODELLED, NOT LIFTED: the `.retSelf` result of the EG / TO / CR steps (fitReturns is lifted and proved `["self"]`,
+            but only gsStep's rule flag and advStepSrc compute their result from it); what a user's base estimator / torch
+            module does inside its own predict / forward.
   E  pickle round trip (TO, EG, GS, CR) predicts like the original
        src_pickle_restores_state, *_pickle_roundtrip — BY DEFINITION of the model (pickle = identity on the modelled
        state); nothing about pickling is lifted from the source.  The content of this clause is checked by the
@@ -62,6 +77,7 @@ hypothetical rule (repair A `copyPerFit`, repaired `nu`), kept because the count
 -/
 import FairModel.Lemmas.Lifecycle
 import FairModel.Model.LifecycleSrc
+import FairModel.Lemmas.LifecycleSrc
 import FairModel.Lemmas.LifecycleParams
 
 namespace C19
@@ -483,6 +499,79 @@ theorem src_predict_pure :
 /-- every estimator has at least one prediction entry point that was analysed (non-vacuity of `src_predict_pure`) -/
 theorem src_predict_methods_present : ∀ c ∈ estimators, predictMethods c ≠ [] := by decide +kernel
 
+/-! ### the prediction closure followed ACROSS the helper objects (`InterpolatedThresholder` behind
+`ThresholdOptimizer.interpolated_thresholder_`; `BackendEngine` / `PytorchEngine` / `TensorflowEngine` behind
+`_AdversarialFairness.backendEngine_`): lifted by harness/lifters/lifecycle_helpers.py -/
+
+/-- ThresholdOptimizer and the adversarial estimators do delegate their predictions to a helper object, every method they
+    call on it was found and analysed in every helper class behind the attribute (for the engines: the abstract base
+    method and both overrides), and no other estimator class has such an attribute -/
+theorem src_helper_calls_followed :
+    helperPredictCalls .TO ≠ [] ∧ helperPredictCalls .ADV ≠ [] ∧
+    (∀ c ∈ estimators, helperCallsResolved c = true) ∧
+    (∀ c ∈ [EstCls.EG, .GS, .CR], helpersOf c = [] ∧ helperPredictCalls c = []) ∧
+    helperPredictClosure .IT ≠ [] ∧ helperPredictClosure .PT ≠ [] ∧ helperPredictClosure .TF ≠ [] := by decide +kernel
+
+/-- what the lifter does NOT follow during prediction is a generated list too, and it consists of the prediction methods of the
+    wrapped base estimators, `FloatTransformer.inverse_transform` and the adversarial predictor function only -/
+theorem src_predict_other_calls_trusted :
+    ∀ c ∈ estimators, subset (predictOtherCalls c) trustedPredictObjectCalls = true := by decide +kernel
+
+/-- inside the helper classes, the closure of the prediction methods the estimators call (`InterpolatedThresholder.predict` /
+    `_pmf_predict`, `<engine>.evaluate`) rebinds no attribute of the helper object or of the estimator behind `self.base`,
+    stores into none in place, calls no mutating method on one (container mutators, torch in-place `…_` methods, optimiser
+    `step` / `zero_grad`, RNG draws — also through local aliases such as `for p in self.predictor_model.parameters()`),
+    hands the helper object only to `check_is_fitted` and its attributes only to `_get_soft_predictions` -/
+theorem src_helper_predict_pure :
+    ∀ h ∈ allHelpers, helperPredictWrites h = [] ∧ subset (helperPredictSelfEscapes h) trustedPredictCallees = true ∧
+      subset (helperPredictAttrArgs h) trustedHelperAttrArgs = true := by decide +kernel
+
+/-- the train / eval MODE FLAG of the networks is scratch state: the prediction closure only ever selects eval mode
+    (`PytorchEngine.evaluate`: `self.predictor_model.eval()`, `TensorflowEngine.evaluate`: `training=False`), every forward
+    pass of a prediction happens after an unconditional eval selection in the same call, and `train_step` selects train mode
+    on the same module before its own forward pass — so the flag carries nothing from a prediction into a later fit or
+    prediction.  (Parameters, buffers and optimiser state are covered by `src_helper_predict_pure`.) -/
+theorem src_helper_mode_flag_scratch :
+    (∀ h ∈ allHelpers, modeOk h = true) ∧
+    helperPredictForwardModes .PT = [("predictor_model", "eval")] ∧
+    helperPredictForwardModes .TF = [("predictor_model", "eval")] ∧
+    (helperTrainStepForwardModes .PT).contains ("predictor_model", "train") = true := by decide +kernel
+
+/-- F5g (KNOWN finding, kept visible): `CorrelationRemover.transform` calls `validate_data(self, X)` with sklearn's default
+    `reset=True` (_correlation_remover.py:133), so a TRANSFORM rewrites the estimator's `n_features_in_` /
+    `feature_names_in_` from the array it is given (replayed by the harness: fit on 3 columns, `transform` of 4 columns raises
+    ValueError and leaves `n_features_in_ = 4`).  The adversarial estimators pass `reset=False`; no other class hands itself to
+    `validate_data` while predicting.  No fairlearn code reads the two attributes (CorrelationRemover checks its own
+    `_n_features_in_`), which is why the flag below — about the state a later prediction or fit can see — stays on. -/
+theorem src_cr_transform_resets_sklearn_attrs :
+    predictValidateResets .CR = ["transform"] ∧
+    (∀ c ∈ [EstCls.TO, .EG, .GS, .ADV, .ADVC, .ADVR], predictValidateResets c = []) ∧
+    (predictReads .CR).contains "n_features_in_" = false ∧ (predictReads .CR).contains "feature_names_in_" = false ∧
+    (fitHistoryReads .CR).all (fun x => !x.startsWith "n_features_in_ " && !x.startsWith "feature_names_in_ ") = true := by
+  decide +kernel
+
+/-- THE predict-purity flag of every estimator class (`predictAssigned` empty, escapes trusted, helper calls resolved,
+    every helper class pure) is on — every `…src` machine below runs its prediction step through this flag -/
+theorem src_predict_pure_flags : ∀ c ∈ estimators, predictPureSrc c = true := by decide +kernel
+
+theorem src_to_guard : TOsrc = TOraw := guardPredict_of_flag (src_predict_pure_flags .TO (by decide)) _ _
+theorem src_topre_guard (h0 : List Data) : TOPreSrc h0 = TOPreRaw h0 :=
+  guardPredict_of_flag (src_predict_pure_flags .TO (by decide)) _ _
+theorem src_gs_guard : GSsrc = GSraw := guardPredict_of_flag (src_predict_pure_flags .GS (by decide)) _ _
+theorem src_eg_guard (g : Bool) : EGsrc g = EGraw g := guardPredict_of_flag (src_predict_pure_flags .EG (by decide)) _ _
+theorem src_cr_guard : CRsrc = CRraw := guardPredict_of_flag (src_predict_pure_flags .CR (by decide)) _ _
+theorem src_adv_guard (w : Bool) : ADVsrc w = ADVraw w := guardPredict_of_flag (src_predict_pure_flags .ADV (by decide)) _ _
+
+/-- the guard has teeth: with the flag off (= some lifted write list non-empty) one prediction makes the estimator differ
+    from its fresh twin, i.e. the refinement theorems below would be FALSE -/
+theorem guard_off_breaks_spec :
+    (guardPredict false toTaint TOraw).view toCls [.fit D1, .predict 0] ≠ Spec.view specCls [.fit D1, .predict 0] ∧
+    (guardPredict false advTaint (ADVraw false)).view advCls [.fit D1, .predict 0] ≠ Spec.view specCls [.fit D1, .predict 0] ∧
+    (guardPredict false gsTaint GSraw).view gsCls [.fit D1, .predict 0] ≠ Spec.view specCls [.fit D1, .predict 0] ∧
+    (guardPredict false (egTaint) (EGraw true)).view (egCls true) [.fit D1, .predict 0] ≠ Spec.view specCls [.fit D1, .predict 0] ∧
+    (guardPredict false crTaint CRraw).view crCls [.fit D1, .predict 0] ≠ Spec.view specCls [.fit D1, .predict 0] := by
+  decide +kernel
+
 theorem src_fit_escapes_trusted : ∀ c ∈ estimators, subset (fitSelfEscapes c) trustedFitCallees = true := by
   decide +kernel
 
@@ -580,18 +669,18 @@ theorem src_cr_rule : crRule = .repaired := by decide +kernel
 theorem src_to_clones : toClones = true := by decide +kernel
 
 theorem src_gs_refines_spec (ops : List Op) : GSsrc.view gsCls ops = Spec.view specCls ops := by
-  unfold GSsrc; rw [src_gs_rules]; exact gs_reentrant_refines_spec ops
+  rw [src_gs_guard]; unfold GSraw; rw [src_gs_rules]; exact gs_reentrant_refines_spec ops
 
 theorem src_gs_history_free (ops : List Op) (d : Data) : GSsrc.run (ops ++ [.fit d]) = GSsrc.run [.fit d] := by
-  unfold GSsrc; exact gs_reentrant_history_free _ (by rw [src_gs_rules]; rfl) ops d
+  rw [src_gs_guard]; unfold GSraw; exact gs_reentrant_history_free _ (by rw [src_gs_rules]; rfl) ops d
 
 theorem src_gs_fit_returns_self (s : GSState) (d : Data) : (GSsrc.step s (.fit d)).2 = .retSelf := by
-  unfold GSsrc; rw [src_gs_rules]; simp [GS, gsStep, gsReentrant, loadConstraints]
+  rw [src_gs_guard]; unfold GSraw; rw [src_gs_rules]; simp [GS, gsStep, gsReentrant, loadConstraints]
 
 /-- ExponentiatedGradient with `nu` given by the user: today's source refines the specification … -/
 theorem src_eg_refines_spec_nu_given (ops : List Op) :
     (EGsrc true).view (egCls true) ops = Spec.view specCls ops := by
-  unfold EGsrc; rw [src_eg_rules]
+  rw [src_eg_guard]; unfold EGraw; rw [src_eg_rules]
   apply view_eq_of_sim (EG ⟨.reentrant, .current⟩ true) Spec
     (fun s t => s.nuParam = some .given ∧ s.started = t.isSome ∧
                 s.fitted = t.map (fun d => (d, Nu.given))) (egCls true) specCls ⟨rfl, rfl, rfl⟩
@@ -604,7 +693,7 @@ theorem src_eg_refines_spec_nu_given (ops : List Op) :
 
 /-- … and never changes `nu` -/
 theorem src_eg_nu_unchanged_nu_given (ops : List Op) : ((EGsrc true).run ops).nuParam = some .given := by
-  unfold EGsrc; rw [src_eg_rules]
+  rw [src_eg_guard]; unfold EGraw; rw [src_eg_rules]
   have h : ∀ (ops : List Op) (s : EGState), s.nuParam = some .given →
       ((EG ⟨.reentrant, .current⟩ true).runFrom s ops).nuParam = some .given := by
     intro ops
@@ -624,16 +713,16 @@ theorem src_eg_nu_none_is_f5c :
   decide +kernel
 
 theorem src_cr_refines_spec (ops : List Op) : CRsrc.view crCls ops = Spec.view specCls ops := by
-  unfold CRsrc; rw [src_cr_rule]; exact cr_refines_spec ops
+  rw [src_cr_guard]; unfold CRraw; rw [src_cr_rule]; exact cr_refines_spec ops
 
 theorem src_cr_history_free (ops : List Op) (d : Data) : CRsrc.run (ops ++ [.fit d]) = CRsrc.run [.fit d] := by
-  unfold CRsrc; rw [src_cr_rule]; exact cr_history_free ops d
+  rw [src_cr_guard]; unfold CRraw; rw [src_cr_rule]; exact cr_history_free ops d
 
 theorem src_to_refines_spec (ops : List Op) : TOsrc.view toCls ops = Spec.view specCls ops := by
-  unfold TOsrc; rw [src_to_clones]; exact to_refines_spec ops
+  rw [src_to_guard]; unfold TOraw; rw [src_to_clones]; exact to_refines_spec ops
 
 theorem src_to_history_free (ops : List Op) (d : Data) : TOsrc.run (ops ++ [.fit d]) = TOsrc.run [.fit d] := by
-  unfold TOsrc; rw [src_to_clones]; exact to_history_free ops d
+  rw [src_to_guard]; unfold TOraw; rw [src_to_clones]; exact to_history_free ops d
 
 /-- the adversarial step function written over the three lifted boolean rules (`reinitialize = …` in fit, the guard
     of `self.__setup` in `_validate_input`, the keep condition of `BackendEngine.__init__`) IS the repaired rule -/
@@ -644,7 +733,7 @@ theorem src_adv_step_eq (w : Bool) (s : AdvState) (o : Op) : advStepSrc w s o = 
     simp [advStepSrc, advStep, advSetupCond, advReinit, advKeepEngine, newEngineSrc, newEngine, fitReturns]
 
 theorem src_adv_machine_eq (w : Bool) : ADVsrc w = Adv .repaired w := by
-  unfold ADVsrc Adv; congr 1; funext s o; exact src_adv_step_eq w s o
+  rw [src_adv_guard]; unfold ADVraw Adv; congr 1; funext s o; exact src_adv_step_eq w s o
 
 theorem src_adv_history_free (ops : List Op) (d : Data) :
     (ADVsrc false).run (ops ++ [.fit d]) = (ADVsrc false).run [.fit d] := by
@@ -816,7 +905,7 @@ theorem src_to_prefit_history_free (h0 : List Data) (hne : h0 ≠ []) (ops : Lis
     (LifecycleSrc.TOPreSrc h0).run (ops ++ [.fit d]) = (LifecycleSrc.TOPreSrc h0).run [.fit d] ∧
     ((LifecycleSrc.TOPreSrc h0).run ops).user = h0 := by
   have h : LifecycleSrc.TOPreSrc h0 = TOPre false h0 := by
-    unfold LifecycleSrc.TOPreSrc; rw [src_to_prefit.1]
+    rw [src_topre_guard]; unfold LifecycleSrc.TOPreRaw; rw [src_to_prefit.1]
   rw [h]
   exact ⟨to_prefit_history_free h0 hne ops hc d, to_prefit_user_estimator_untouched h0 hne ops hc⟩
 
@@ -834,13 +923,13 @@ open LifecycleSrc Generated.LifecycleSrc
 /-! ### clause B (fit returns the estimator) for every source-derived machine, from ANY state -/
 
 theorem src_eg_fit_returns_self (g : Bool) (s : EGState) (d : Data) : ((EGsrc g).step s (.fit d)).2 = .retSelf := by
-  unfold EGsrc; rw [src_eg_rules]; simp [EG, egStep, loadConstraints]
+  rw [src_eg_guard]; unfold EGraw; rw [src_eg_rules]; simp [EG, egStep, loadConstraints]
 
 theorem src_to_fit_returns_self (s : TOState) (d : Data) : (TOsrc.step s (.fit d)).2 = .retSelf :=
   to_fit_returns_self _ s d
 
 theorem src_cr_fit_returns_self (s : CRState) (d : Data) : (CRsrc.step s (.fit d)).2 = .retSelf := by
-  unfold CRsrc; rw [src_cr_rule]; exact cr_fit_returns_self s d
+  rw [src_cr_guard]; unfold CRraw; rw [src_cr_rule]; exact cr_fit_returns_self s d
 
 theorem src_adv_fit_returns_self (w : Bool) (s : AdvState) (d : Data) : ((ADVsrc w).step s (.fit d)).2 = .retSelf := by
   rw [src_adv_machine_eq]; rfl
@@ -856,7 +945,7 @@ theorem src_eg_history_free_nu_given (ops : List Op) (d : Data) :
   generalize (EGsrc true).run ops = s at hn
   rcases s with ⟨m, n, st, f⟩
   simp only at hn; subst hn
-  unfold EGsrc; rw [src_eg_rules]; simp [EG, egStep, loadConstraints, egInit]
+  rw [src_eg_guard]; unfold EGraw; rw [src_eg_rules]; simp [EG, egStep, loadConstraints, egInit]
 
 /-- F5c, what DOES hold for `nu=None` under today's source (PARTIAL: the full clause `src_eg_refines_spec` for
     `nuGiven = false` is false, witness `src_eg_nu_none_is_f5c`): for EVERY history the results column is the
@@ -865,7 +954,7 @@ theorem src_eg_history_free_nu_given (ops : List Op) (d : Data) :
     results are compared.) -/
 theorem src_eg_nu_none_results_refine_spec_partial (ops : List Op) :
     (EGsrc false).view (fun _ => Cls.unfitted) ops = Spec.view (fun _ => Cls.unfitted) ops := by
-  unfold EGsrc; rw [src_eg_rules]
+  rw [src_eg_guard]; unfold EGraw; rw [src_eg_rules]
   apply view_eq_of_sim (EG ⟨.reentrant, .current⟩ false) Spec
     (fun s t => s.started = t.isSome ∧ s.fitted.isSome = t.isSome) _ _ ⟨rfl, rfl⟩
   · rintro ⟨m, n, st, f⟩ t o ⟨h1, h2⟩
@@ -876,7 +965,7 @@ theorem src_eg_nu_none_results_refine_spec_partial (ops : List Op) :
 /-- the first fit after construction (no fit before it, whatever else happened) is the fresh twin even for `nu=None` -/
 theorem src_eg_nu_none_first_fit_fresh (ops : List Op) (hno : ∀ o ∈ ops, ∀ d', o ≠ Op.fit d') (d : Data) :
     egCls false ((EGsrc false).run (ops ++ [.fit d])) = .fresh d := by
-  unfold EGsrc; rw [src_eg_rules]
+  rw [src_eg_guard]; unfold EGraw; rw [src_eg_rules]
   have inv : ∀ (ops : List Op) (s : EGState), s.nuParam = none → (∀ o ∈ ops, ∀ d', o ≠ Op.fit d') →
       ((EG ⟨.reentrant, .current⟩ false).runFrom s ops).nuParam = none := by
     intro ops
@@ -911,7 +1000,7 @@ theorem src_eg_nu_none_cls_partial (ops : List Op) :
     egCls false ((EGsrc false).run ops) = .unfitted ∨
     (∃ d, egCls false ((EGsrc false).run ops) = .fresh d) ∨
     (∃ d d', egCls false ((EGsrc false).run ops) = .staleNu d d') := by
-  unfold EGsrc; rw [src_eg_rules]
+  rw [src_eg_guard]; unfold EGraw; rw [src_eg_rules]
   have inv : ∀ (ops : List Op) (s : EGState),
       (s.started = s.fitted.isSome ∧ (∀ v, s.nuParam = some v → ∃ d', v = .auto d') ∧
         ∀ d nu, s.fitted = some (d, nu) → ∃ d', nu = .auto d') →
@@ -977,10 +1066,14 @@ theorem src_predict_does_not_alter_state (ops : List Op) (k : Nat) :
     CRsrc.run (ops ++ [.predict k]) = CRsrc.run ops ∧
     (∀ g, (EGsrc g).run (ops ++ [.predict k]) = (EGsrc g).run ops) ∧
     (∀ w, (ADVsrc w).run (ops ++ [.predict k]) = (ADVsrc w).run ops) :=
-  ⟨run_snoc_of_step_id _ _ (fun s => (to_predict_pure _ s k).1) ops,
+  by
+  -- the prediction step of every `…src` machine runs through the LIFTED purity flag (`guardPredict (predictPureSrc c)`):
+  -- this theorem holds because `src_predict_pure_flags` does
+  rw [src_to_guard, src_gs_guard, src_cr_guard]
+  exact ⟨run_snoc_of_step_id _ _ (fun s => (to_predict_pure _ s k).1) ops,
    run_snoc_of_step_id _ _ (fun s => (gs_predict_pure _ s k).1) ops,
    run_snoc_of_step_id _ _ (fun s => (cr_predict_pure _ s k).1) ops,
-   fun g => run_snoc_of_step_id _ _ (fun s => (eg_predict_pure _ g s k).1) ops,
+   fun g => by rw [src_eg_guard]; exact run_snoc_of_step_id _ _ (fun s => (eg_predict_pure _ g s k).1) ops,
    fun w => run_snoc_of_step_id _ _ (fun s => by rw [src_adv_machine_eq]; rfl) ops⟩
 
 /-- clause E: ThresholdOptimizer, ExponentiatedGradient, GridSearch, CorrelationRemover restored from pickle are in the
